@@ -19,8 +19,13 @@ def ascii (s : String) : Bytes := s.toList.map (fun c => UInt8.ofNat c.toNat)
 def crlf : Bytes := [13, 10]
 def sp : Bytes := [32]
 
+def digit (k : Nat) : UInt8 := UInt8.ofNat (48 + k)
+
 /-- decimal digits of a natural number, most significant first -/
-def decimal (n : Nat) : Bytes := (Nat.toDigits 10 n).map (fun c => UInt8.ofNat c.toNat)
+def decimal (n : Nat) : Bytes :=
+  if n < 10 then [digit n] else decimal (n / 10) ++ [digit (n % 10)]
+termination_by n
+decreasing_by omega
 
 def encodeFields (fields : List (Bytes × Bytes)) : Bytes :=
   (fields.map (fun f => f.1 ++ [58, 32] ++ f.2 ++ crlf)).flatten ++ crlf
@@ -87,6 +92,9 @@ def fieldNameOK (k : Bytes) : Bool := !k.isEmpty && k.all tokenChar
 def fieldValueOK (v : Bytes) : Bool :=
   v.all (fun b => 0x20 ≤ b && b ≤ 0x7E) && v.head? != some 0x20 && v.getLast? != some 0x20
 
+/-- Request-URI on the wire: non-empty, printable ASCII without blanks (what `URL.String()` emits) -/
+def uriOK (u : Bytes) : Bool := !u.isEmpty && u.all (fun b => 0x21 ≤ b && b ≤ 0x7E)
+
 /-- the methods of RFC 2326 §10 -/
 def methods : List Bytes :=
   ["OPTIONS", "DESCRIBE", "ANNOUNCE", "SETUP", "PLAY", "PAUSE", "TEARDOWN", "GET_PARAMETER",
@@ -103,11 +111,17 @@ def distinctNames : List Bytes → Bool
 def fieldsValid (fields : List (Bytes × Bytes)) : Bool :=
   fields.all (fun f => fieldNameOK f.1 && fieldValueOK f.2) && distinctNames (fields.map (fun f => canonName f.1))
 
+/-- `Content-Length` (in any spelling) is the codec's own field: a message without a body has
+    none, a message with a body exactly the one of the normal form -/
+def lengthFieldOK (fields : List (Bytes × Bytes)) (body : Bytes) : Bool :=
+  fields.all (fun f => canonName f.1 != ascii "Content-Length" || (!body.isEmpty && f.1 == ascii "Content-Length"))
+
 def requestValid (method : Bytes) (fields : List (Bytes × Bytes)) (body : Bytes) : Bool :=
-  methods.contains method && fieldsValid fields && body.length ≤ guaranteedBody
+  methods.contains method && fieldsValid fields && lengthFieldOK fields body && body.length ≤ guaranteedBody
 
 def responseValid (code : Nat) (reason : Bytes) (fields : List (Bytes × Bytes)) (body : Bytes) : Bool :=
-  100 ≤ code && code ≤ 999 && reason.all (fun b => b != 13 && b != 10) && fieldsValid fields && body.length ≤ guaranteedBody
+  100 ≤ code && code ≤ 999 && reason.all (fun b => b != 13 && b != 10) && fieldsValid fields
+    && lengthFieldOK fields body && body.length ≤ guaranteedBody
 
 /-- what the reader must deliver for the fields of a valid message -/
 def decodedFields (fields : List (Bytes × Bytes)) : List (Bytes × List Bytes) :=
